@@ -4,6 +4,8 @@ mod c03;
 mod c06;
 mod c07;
 mod c08;
+mod c12;
+mod texts;
 mod evolve;
 mod refresolve;
 mod c13;
@@ -57,6 +59,11 @@ fn main() {
         "C07" => c07::run(tier, filter),
         "C08" => c08::run_c08(tier, replay.as_ref()),
         "C09" => c08::run_c09(tier, replay.as_ref()),
+        "C12" => c12::run(tier, replay.as_ref()),
+        "C12-DUMP" => {
+            print!("{}", c12::dump(2));
+            0
+        }
         "C13" => c13::run(tier, replay.as_ref()),
         "C14" => c14::run(tier, replay.as_ref()),
         "C18" => c18::run(tier, replay.as_ref()),
